@@ -54,6 +54,7 @@ func (c *Closure) Run(deadline int64) *ClosureResult {
 		// a panic of the code under test is a verdict (no-panic clause), not a crash of the checker
 		defer func() {
 			if r := recover(); r != nil {
+				EngineFault(r)
 				res.NViol++
 				k := "no-panic\x00panic"
 				if !sigSeen[k] {
@@ -146,6 +147,7 @@ func (c *Closure) Sequences(depth int, deadline int64, run func(gen func(emit fu
 	work := func(path []int) (fs []ClauseFail) {
 		defer func() {
 			if r := recover(); r != nil {
+				EngineFault(r)
 				fs = append(fs, ClauseFail{Clause: "no-panic", Sig: "panic:" + normPanic(fmt.Sprint(r)), Msg: fmt.Sprintf("panic: %v", r)})
 			}
 		}()
@@ -165,4 +167,17 @@ func (c *Closure) Sequences(depth int, deadline int64, run func(gen func(emit fu
 	res.MaxDepth = depth
 	res.Wall = time.Since(t0).Seconds()
 	return res
+}
+
+// EngineFault re-raises a recovered panic that comes from the engine itself (a go statement, a timer or a blocking
+// operation outside a controlled execution: sequential sweeps run the library in pass-through mode, where only
+// sequential code is supported). Such a panic says nothing about the property - the run must end as an engine error
+// (exit 2, no verdict), never as a violation.
+func EngineFault(r interface{}) {
+	if s, ok := r.(string); ok && strings.HasPrefix(s, "vrt:") {
+		panic(r)
+	}
+	if e, ok := r.(error); ok && strings.HasPrefix(e.Error(), "vrt:") {
+		panic(r)
+	}
 }
